@@ -91,10 +91,12 @@ Lemma emit_n_length t : wf_node t -> forall b, length (emit_n t b) = nlen t.
 Proof. intros W b. rewrite emit_n_tr, nlen_tr by assumption. apply emit_len. Qed.
 
 (* ---- the size lemma ------------------------------------------------------------------------ *)
-Lemma rep_fits n n' mn mx : wf_rep mn mx -> (Z.of_nat n <= n')%Z -> (Z.of_nat (rep_len n mn mx) <= rep_count n' mn mx)%Z.
+(* the unsaturated estimate dominates the emitted length ... *)
+Lemma rep_fits n n' mn mx : wf_rep mn mx -> negb ((mn =? 0) && (mx =? 0))%Z = true -> (Z.of_nat n <= n')%Z ->
+  (Z.of_nat (rep_len n mn mx) <= rep_raw n' mn mx)%Z.
 Proof.
-  intros [H0 H1] Hn. unfold rep_len, rep_count.
-  destruct ((mn =? 0)%Z && (mx =? 0)%Z) eqn:E0; [lia|].
+  intros [H0 H1] E0' Hn. unfold rep_len, rep_raw.
+  destruct ((mn =? 0)%Z && (mx =? 0)%Z) eqn:E0; [discriminate|].
   destruct ((mn =? 1)%Z && (mx =? 1)%Z) eqn:E1; [lia|].
   destruct (mx <? 0)%Z eqn:Em.
   - destruct (Z.to_nat mn) as [|m] eqn:Em'; cbn [Nat.eqb].
@@ -109,12 +111,70 @@ Proof.
       destruct (mn =? 0)%Z eqn:E; [lia|]. nia.
 Qed.
 
-Theorem emit_fits t : wf_node t -> (Z.of_nat (nlen t) <= count t)%Z.
+(* ... and never shrinks its argument, so a saturated sub-estimate keeps the whole saturated *)
+Lemma rep_raw_ge n' mn mx : wf_rep mn mx -> negb ((mn =? 0) && (mx =? 0))%Z = true -> (0 <= n')%Z -> (n' <= rep_raw n' mn mx)%Z.
 Proof.
-  induction t; cbn [nlen count wf_node]; intro W.
+  intros [H0 H1] E0 Hn. unfold rep_raw.
+  destruct ((mn =? 1)%Z && (mx =? 1)%Z); [lia|].
+  destruct (mx <? 0)%Z eqn:Em; destruct (mn =? 0)%Z eqn:E; nia.
+Qed.
+
+(* either the estimate dominates the emitted length or it has reached the limit NINST *)
+Definition fits (l c : Z) : Prop := (l <= c)%Z \/ (0 <= NINST /\ NINST <= c)%Z.
+
+Lemma sat_fits l r : (l <= r)%Z -> fits l (sat r).
+Proof. unfold fits, sat. intro H. destruct (NINST <? 0)%Z eqn:E; [left; lia|]. destruct (r <? NINST)%Z eqn:E2; [left; lia | right; lia]. Qed.
+Lemma sat_big r : (0 <= NINST)%Z -> (NINST <= r)%Z -> (0 <= NINST /\ NINST <= sat r)%Z.
+Proof. unfold sat. intros H0 H. destruct (NINST <? 0)%Z eqn:E; [lia|]. destruct (r <? NINST)%Z eqn:E2; lia. Qed.
+
+Lemma rep_count_fits n n' mn mx : wf_rep mn mx -> (0 <= n')%Z -> fits (Z.of_nat n) n' -> fits (Z.of_nat (rep_len n mn mx)) (rep_count n' mn mx).
+Proof.
+  intros W Hn' F. unfold rep_count.
+  destruct ((mn =? 0)%Z && (mx =? 0)%Z) eqn:E0.
+  - left. unfold rep_len. rewrite E0. lia.
+  - destruct F as [F|[F0 F1]].
+    + apply sat_fits. apply rep_fits; [exact W | rewrite E0; reflexivity | exact F].
+    + right. apply sat_big; [exact F0|]. pose proof (rep_raw_ge n' mn mx W ltac:(rewrite E0; reflexivity) Hn'). lia.
+Qed.
+
+Lemma sat_nonneg r : (0 <= r)%Z -> (0 <= sat r)%Z.
+Proof. unfold sat. intro H. destruct (NINST <? 0)%Z eqn:E; [lia|]. destruct (r <? NINST)%Z eqn:E2; lia. Qed.
+Lemma rep_count_nonneg n' mn mx : wf_rep mn mx -> (0 <= n')%Z -> (0 <= rep_count n' mn mx)%Z.
+Proof.
+  intros W Hn. unfold rep_count. destruct ((mn =? 0)%Z && (mx =? 0)%Z) eqn:E0; [lia|].
+  apply sat_nonneg. pose proof (rep_raw_ge n' mn mx W ltac:(rewrite E0; reflexivity) Hn). lia.
+Qed.
+Lemma count_nonneg t : wf_node t -> (0 <= count t)%Z.
+Proof.
+  assert (W11 : wf_rep 1 1) by (unfold wf_rep; lia).
+  induction t; cbn [count wf_node]; intro W.
   - lia.
-  - apply rep_fits; [exact W | lia].
-  - destruct W as [W1 W2]. apply rep_fits; [exact W1|]. specialize (IHt W2). lia.
-  - destruct W as [W1 W2]. specialize (IHt1 W1). specialize (IHt2 W2). lia.
-  - destruct W as [W1 W2]. specialize (IHt1 W1). specialize (IHt2 W2). lia.
+  - apply rep_count_nonneg; [exact W | lia].
+  - destruct W as [W1 W2]. apply rep_count_nonneg; [exact W1|]. specialize (IHt W2). lia.
+  - destruct W as [W1 W2]. apply rep_count_nonneg; [exact W11|]. specialize (IHt1 W1). specialize (IHt2 W2). lia.
+  - destruct W as [W1 W2]. apply rep_count_nonneg; [exact W11|]. specialize (IHt1 W1). specialize (IHt2 W2). lia.
+Qed.
+
+Lemma fits_add a b c d k : (0 <= c)%Z -> (0 <= d)%Z -> (0 <= k)%Z -> fits a c -> fits b d -> fits (a + b + k) (c + d + k).
+Proof. unfold fits. intros. lia. Qed.
+
+Theorem emit_fits t : wf_node t -> fits (Z.of_nat (nlen t)) (count t).
+Proof.
+  assert (W11 : wf_rep 1 1) by (unfold wf_rep; lia).
+  assert (L11 : forall n, rep_len n 1 1 = n) by (intro; reflexivity).
+  induction t; cbn [nlen count wf_node]; intro W.
+  - left. lia.
+  - apply rep_count_fits; [exact W | lia | left; lia].
+  - destruct W as [W1 W2]. apply rep_count_fits; [exact W1 | pose proof (count_nonneg t W2); lia |].
+    replace (Z.of_nat (nlen t + 2)) with (Z.of_nat (nlen t) + 0 + 2)%Z by lia. replace (count t + 2)%Z with (count t + 0 + 2)%Z by lia.
+    apply fits_add; try lia; [apply count_nonneg; exact W2 | apply IHt; exact W2 | left; lia].
+  - destruct W as [W1 W2]. rewrite <- (L11 (nlen t1 + nlen t2)).
+    apply rep_count_fits; [exact W11 | pose proof (count_nonneg t1 W1); pose proof (count_nonneg t2 W2); lia |].
+    replace (Z.of_nat (nlen t1 + nlen t2)) with (Z.of_nat (nlen t1) + Z.of_nat (nlen t2) + 0)%Z by lia.
+    replace (count t1 + count t2)%Z with (count t1 + count t2 + 0)%Z by lia.
+    apply fits_add; try lia; auto using count_nonneg.
+  - destruct W as [W1 W2]. rewrite <- (L11 (nlen t1 + nlen t2 + 2)).
+    apply rep_count_fits; [exact W11 | pose proof (count_nonneg t1 W1); pose proof (count_nonneg t2 W2); lia |].
+    replace (Z.of_nat (nlen t1 + nlen t2 + 2)) with (Z.of_nat (nlen t1) + Z.of_nat (nlen t2) + 2)%Z by lia.
+    apply fits_add; try lia; auto using count_nonneg.
 Qed.
